@@ -39,6 +39,7 @@ def b(name, **kw):
 
 
 U1 = [(V, 'u1_search', {}), (V, 'u1_overlap', {}), (V, 'u1_iter', {})]
+U2 = [(V, 'u2_buffer', {}), (V, 'u2_stream', {})]
 
 PROPS = {
     'C01': dict(
@@ -60,13 +61,13 @@ PROPS = {
         level_note=COMMON_NOTE,
     ),
     'C04': dict(
-        components=U1 + [b('bisim', families='small,abc,ci,wide'),
+        components=[('kani', 'alphabet_leaf', {})] + U1 + [b('bisim', families='small,abc,ci,wide'),
                          sem('std,lf,ll', 'find,iter,ov', families='small', cfgs='all')],
         level_text='Proof (Verus): every search API is a function of the abstract automaton only (find_spec / ov_remaining over AC), so two representations with equal abstract behaviour give equal results for every haystack. Bounded stand-in (exhaustive over haystacks per pattern list): product BFS bisimulation of the reference noncontiguous NFA with every contiguous/DFA/dense-depth/byte-class configuration over all 256 bytes from both start states; top-level vs low-level use compared through the API.',
         level_note=COMMON_NOTE + ' The lifting "bisimilar automata => equal API results" (L-bisim) is an unmechanised consequence of the proved postconditions being functions of the AC ghost state only.',
     ),
     'C05': dict(
-        components=[(V, 'u1_search', {}), (V, 'u1_overlap', {}),
+        components=[('kani', 'prefilter_leaf', {}), ('kani', 'prefilter_findin', {})] + [(V, 'u1_search', {}), (V, 'u1_overlap', {}),
                     b('pc')],
         level_text='Proof (Verus): under the prefilter coherence contract PC both search loops return exactly what the prefilter-free abstract run returns (prefilter consulted only before the loop and in the start state with no pending match; a candidate is used only if it lies ahead; None ends the search). Bounded stand-in: PC itself (None / PossibleStartOfMatch / Match clauses) executed for every prefilter variant the real builder selects, every span of short haystacks and long haystacks, plus API transparency.',
         level_note=COMMON_NOTE,
@@ -78,16 +79,14 @@ PROPS = {
         level_note='No obligations are discharged for C06 yet; bounded executed contract only. SIMD intrinsics are outside every installed verifier.',
     ),
     'C07': dict(
-        components=[b('stream')],
-        level='exploration',
-        level_text='Bounded companion: stream_find_iter vs in-memory definition for explicit read schedules and tiny roll-buffer capacities (hook H2).',
-        level_note='Verus unit u2_stream pending; until then bounded only.',
+        components=U2 + [(V, 'u1_iter', {}), b('stream')],
+        level_text='Proof (Verus, fully within the family): for every reader obeying the std::io::Read contract — i.e. for all read sizes, all positions where a read ends, all buffer capacities > min — the real StreamChunkIter::next/StreamFindIter::next yield exactly st_rest(stream), the run of the abstract automaton over the concatenated stream with absolute offsets (Buffer::new/fill/roll proved with content postconditions). The in-memory side (FindIter over find_spec) is proved in u1_iter. Bounded companion: real readers with explicit schedules and capacities 1..8 bytes above the minimum (hook H2).',
+        level_note=COMMON_NOTE + ' Read contract = std documentation (assumption about the caller\'s reader). Buffer::free_buffer (one line) is trusted with a stated contract. Streams shorter than 2^64 bytes.',
     ),
     'C08': dict(
-        components=[b('stream')],
-        level='exploration',
-        level_text='Bounded companion: stream replace_all / replace_all_with vs splice definition for explicit read schedules and tiny capacities.',
-        level_note='Verus unit u2_stream pending; until then bounded only.',
+        components=U2 + [b('stream')],
+        level_text='Proof (Verus): the chunk sequence of StreamChunkIter::next partitions the stream: each NonMatch chunk is the next unreported bytes and never reaches into the next match, each Match chunk is exactly the next match of the abstract run with its bytes stream[m.start..m.end]; only bytes older than the retained tail are flushed before a roll and buffer_reported_pos is re-based by the rolled distance. Bounded companion: stream_replace_all / _with vs the splice definition on real readers/writers.',
+        level_note=COMMON_NOTE + ' The replacement driver loop (write_all per chunk) is covered by the bounded companion only; Read/Write contracts = std documentation.',
     ),
     'C09': dict(
         components=[(V, 'u1_search', {}), (V, 'u1_overlap', {}), (V, 'u1_iter', {}),
@@ -96,15 +95,14 @@ PROPS = {
         level_note=COMMON_NOTE,
     ),
     'C10': dict(
-        components=U1 + [sem('std,lf,ll', 'find,iter,ov,anch,spans', families='small'), b('pc', aspects='find,iter')],
+        components=[('kani', 'search_leaf', {}), ('kani', 'prefilter_findin', {})] + U1 + [sem('std,lf,ll', 'find,iter,ov,anch,spans', families='small'), b('pc', aspects='find,iter')],
         level_text='Proof (Verus): every postcondition of the search units is stated for an arbitrary valid span; haystack is indexed only at positions in [start,end) (bounds obligations), every reported match lies in the span (lemma_scan_bounds), is_done yields None, Input::set_span/set_start preconditions are exactly the non-panicking domain. Bounded stand-in: all spans incl. start = end+1 on the real builders and prefilters.',
         level_note=COMMON_NOTE,
     ),
     'C11': dict(
-        components=[sem('std,lf,ll', 'find,iter,ov,anch', families='ci', ci='1'), b('pc'), b('bisim', families='ci')],
-        level='exploration',
-        level_text='Bounded stand-in so far: definition with ASCII folding vs real builders over letters of both cases, boundary bytes and non-ASCII bytes; prefilter contract with ci on.',
-        level_note='Kani harness for opposite_ascii_case pending.',
+        components=[('kani', 'prefilter_leaf', {})] + [sem('std,lf,ll', 'find,iter,ov,anch', families='ci', ci='1'), b('pc'), b('bisim', families='ci')],
+        level_text='Proof (Kani, complete over u8): opposite_ascii_case flips exactly A-Z/a-z, is an involution and fixes every other byte (boundary bytes and >= 0x80 included); RareByteOffsets::set keeps the per-byte maximum. Bounded stand-in: definition with ASCII folding vs the real builders (both-case trie edges, byte classes, exact match-list multiplicity, ids as supplied) over letters of both cases, boundary bytes and non-ASCII bytes; prefilter contract with ci on; bisimulation of representations.',
+        level_note=COMMON_NOTE + ' The trie construction with both-case edges is a builder (bounded stand-in only).',
     ),
     'C12': dict(
         components=[(V, 'u1_iter', {}), b('replace')],
@@ -112,7 +110,7 @@ PROPS = {
         level_note=COMMON_NOTE + ' The splice loop itself (u7_replace) is pending.',
     ),
     'C13': dict(
-        components=[(V, 'u1_search', {}), (V, 'u1_overlap', {}), (V, 'u1_iter', {}), b('cfgprod')],
+        components=[('kani', 'gates_leaf', {})] + [(V, 'u1_search', {}), (V, 'u1_overlap', {}), (V, 'u1_iter', {}), b('cfgprod')],
         level_text='Proof (Verus): try_find_fwd / try_find_overlapping_fwd / FindIter::new fail exactly when start_state has no start state for the requested anchoring (and, for overlapping, when the match kind is not standard), independent of the haystack; a constructed FindIter never hits its expect. Exhaustive stand-in: the full finite product match kind x start kind x anchoring x engine kind x 17 APIs x empty-pattern on the real code.',
         level_note=COMMON_NOTE,
     ),
@@ -122,7 +120,7 @@ PROPS = {
         level_note=COMMON_NOTE,
     ),
     'C15': dict(
-        components=U1 + [b('packed'), b('pc', aspects='find')],
+        components=[('kani', 'search_leaf', {})] + U1 + [b('packed'), b('pc', aspects='find')],
         level_text='Proof (Verus): every index, slice, subtraction, addition, unwrap/expect/assert!/debug_assert! in the extracted search functions is a discharged obligation; reported matches satisfy start <= end <= len and pid < pattern count (match_in lemmas). Bounded stand-in for the raw-pointer SIMD code: all packed variants on exactly-sized allocations for lengths 0..=100.',
         level_note=COMMON_NOTE + ' Raw-pointer code (Teddy, is_prefix_raw) is covered by bounded runs only until the Kani unit lands.',
     ),
@@ -139,10 +137,9 @@ PROPS = {
         level_note='Data-race freedom of a Sync value shared by & is Rust\'s soundness theorem (assumed).',
     ),
     'C18': dict(
-        components=[b('stream', faults='1')],
-        level='fault_enumeration',
-        level_text='Bounded companion: a read fault at every byte position and a write fault after every output length, for explicit read schedules and tiny capacities.',
-        level_note='Verus unit u2_stream pending; until then bounded only.',
+        components=U2 + [b('stream', faults='1')],
+        level_text='Proof (Verus): read results are nondeterministic in the proof, so every fault position is covered: on Err from fill, next returns Some(Err) with the abstract state (reported offset, remaining matches) unchanged and the representation invariant intact, Buffer::fill keeps already-buffered bytes; None is returned only after the reader reported end of stream into a non-empty buffer and everything was handed over; no panic/overflow/out-of-bounds. Bounded companion: a read fault at every byte position and a write fault after every output length on real readers/writers.',
+        level_note=COMMON_NOTE + ' Writer-fault half (try_stream_replace_all_with) is covered by the bounded companion only.',
     ),
     'C19': dict(
         components=[(V, 'u1_search', {}), (V, 'u1_overlap', {}), b('faildepth')],
@@ -150,10 +147,9 @@ PROPS = {
         level_note=COMMON_NOTE,
     ),
     'C20': dict(
-        components=[b('meta')],
-        level='exploration',
-        level_text='Bounded stand-in: shape-diverse pattern collections x option combinations: no panic, requested kind returned, metadata mirrors input, ids are input positions.',
-        level_note='Verus/Kani units for build dispatch and id limits pending.',
+        components=[('kani', 'primitives_leaf', {})] + [b('meta')],
+        level_text='Proof (Kani, complete over usize): SmallIndex/StateID/PatternID::new fail exactly above their limit and round-trip the value (size limits surface as errors, not panics). Bounded stand-in: shape-diverse pattern collections x option combinations: no panic, requested kind returned, automatic kind rule, metadata mirrors input, ids are input positions.',
+        level_note=COMMON_NOTE + ' The builders themselves are beyond Verus/Kani here (bounded stand-in only).',
     ),
 }
 
